@@ -540,6 +540,11 @@ func (e *Exec) specUnify(l, r TV) (Term, Term) {
 // directIndexBase finds, in body, an index expression X[v] (v the bound variable itself, X free
 // of bound variables) and returns X and whether it sits inside old(...).
 func directIndexBase(body SExpr, v string, bound map[string]bool) (SExpr, bool) {
+	return directIndexBaseSkip(body, v, bound, nil)
+}
+
+// directIndexBaseSkip is directIndexBase ignoring the bases whose text is in skip.
+func directIndexBaseSkip(body SExpr, v string, bound map[string]bool, skip map[string]bool) (SExpr, bool) {
 	var found SExpr
 	foundOld := false
 	var walk func(x SExpr, inOld bool)
@@ -559,7 +564,7 @@ func directIndexBase(body SExpr, v string, bound map[string]bool) (SExpr, bool) 
 						clean = false
 					}
 				})
-				if clean {
+				if clean && !skip[specString(y.X)] {
 					found = y.X
 					foundOld = inOld
 					return
@@ -596,7 +601,37 @@ func directIndexBase(body SExpr, v string, bound map[string]bool) (SExpr, bool) 
 	return found, foundOld
 }
 
+// directIndexBases: every distinct X such that body contains X[v] (v the bound variable itself, X free of bound variables).
+func directIndexBases(body SExpr, v string, bound map[string]bool) []SExpr {
+	var out []SExpr
+	seen := map[string]bool{}
+	cur := body
+	for len(out) < 4 {
+		bx, _ := directIndexBaseSkip(cur, v, bound, seen)
+		if bx == nil {
+			break
+		}
+		seen[specString(bx)] = true
+		out = append(out, bx)
+	}
+	return out
+}
+
 func (e *Exec) trQuant(x *SQuant, env *SpecEnv) TV {
+	// premises that index several slices directly by the bound variable are stated once per anchor slice: the SMT
+	// variable of each copy is the element address in that slice, so a goal or premise anchored on any of them finds it
+	if e.premiseMode && e.anchorPick < 0 && x.Forall && x.Type == "" {
+		bound := map[string]bool{x.Var: true}
+		if bases := directIndexBases(x.Body, x.Var, bound); len(bases) > 1 {
+			var parts []Term
+			for k := range bases {
+				e.anchorPick = k
+				parts = append(parts, e.trQuant(x, env).T)
+			}
+			e.anchorPick = -1
+			return TV{And(parts...), specBoolT}
+		}
+	}
 	// nested quantifiers of the same kind are flattened into one binder list
 	var chain []*SQuant
 	cur := x
@@ -630,7 +665,15 @@ func (e *Exec) trQuant(x *SQuant, env *SpecEnv) TV {
 		} else {
 			// absolute addressing: when the variable directly indexes a slice, the SMT variable is the
 			// element address (base + i), so that its trigger (select A p) contains no arithmetic
-			if bx, bxOld := directIndexBase(innermost, q.Var, bound); bx != nil {
+			bx, bxOld := directIndexBase(innermost, q.Var, bound)
+			if e.anchorPick > 0 && q == chain[0] {
+				skip := map[string]bool{}
+				for k := 0; k < e.anchorPick && bx != nil; k++ {
+					skip[specString(bx)] = true
+					bx, bxOld = directIndexBaseSkip(innermost, q.Var, bound, skip)
+				}
+			}
+			if bx != nil {
 				benv := env
 				if bxOld {
 					n := *env
@@ -1420,7 +1463,9 @@ const viewPH = "@V@"
 
 // assumeClause assumes a clause and registers its view-quantified conjuncts for instantiation.
 func (e *Exec) assumeClause(st *State, c Clause, env *SpecEnv) {
+	e.premiseMode = os.Getenv("RVC_NOMULTIANCHOR") == ""
 	t := e.specBool(st, c, env)
+	e.premiseMode = false
 	n0 := len(e.assumps)
 	e.assumeTagged(st, t, c.Tag)
 	if c.E == nil || len(e.assumps) == n0 {
